@@ -55,6 +55,23 @@ fn witness_u8() {
     let u = unify(&cond, &cond, &mut ctx);
     corollary_normalise_agrees_with_evaluate(&cond);
     corollary_unify_reflexive(&cond, &mut ctx);
+    // a context with a LET-BOUND entry satisfies ctx_ok, and the variable that refers to it satisfies the preconditions:
+    // the delta arm of the normaliser is reachable under the contract
+    let tt = Term { source_range: None, variant: True };
+    assert(view(tt) == STerm::Node(Kind::True, s0()));
+    let mut ctx2: Vec<Option<(Rc<Term<'static>>, usize)>> = Vec::new();
+    ctx2.push(Some((Rc::new(tt), 1usize)));
+    let x = Term { source_range: None, variant: Variable("x", 0) };
+    assert(view(x) == STerm::Var(0));
+    proof {
+        reveal(ctx_ok); reveal(s_cl);
+        lemma_ok0(Kind::True, 0, HB() as nat);
+        assert forall|y: nat| !#[trigger] s_has_fv(STerm::Node(Kind::True, s0()), 1, y) by {}
+        assert forall|y: nat| !#[trigger] s_has_fv(STerm::Var(0), 1, y) by {}
+        assert(ctx_ok(ctx2@));
+    }
+    let wx = normalize_weak_head(&x, &mut ctx2);
+    proof { reveal(ctx_view); assert(s_delta(ctx_view(ctx2@), 0) is Some); }
 }
 
 // Must-fail canaries (quick tier): each asserts the NEGATION of something the contract implies at a concrete call.
